@@ -19,6 +19,7 @@ Definition err_eqb (a b : err) : bool :=
   match a, b with
   | EIdTypeMismatch, EIdTypeMismatch | EAlreadyExists, EAlreadyExists | ELocked, ELocked | ENotFound, ENotFound
   | EUnknownField, EUnknownField | EInvalidIdType, EInvalidIdType | ENotHeld, ENotHeld | EPayload, EPayload
+  | EUnauthorized, EUnauthorized | ENotMintable, ENotMintable | ENotBurnable, ENotBurnable
   | EOther, EOther => true
   | _, _ => false
   end.
@@ -29,20 +30,20 @@ Definition res_eqb (a b : res unit) : bool :=
 Definition harness_mutable : list (N * nat) := [(1, 1%nat); (3, 3%nat)].
 
 Record case := mkcase {
-  k_ty : idtype; k_initial : list (nfid * data);
-  k_steps : list (list op * res unit * list (nfid * option entry)) }.
+  k_ty : idtype; k_initial : list (nfid * data); k_mintable : bool; k_burnable : bool;
+  k_steps : list (list (bool * op) * res unit * list (nfid * option entry)) }.
 
-Fixpoint replay (m : rm) (l : list (list op * res unit * list (nfid * option entry))) : bool :=
+Fixpoint replay (cfg : rcfg) (m : rm) (l : list (list (bool * op) * res unit * list (nfid * option entry))) : bool :=
   match l with
   | [] => true
   | (o, out, obs) :: l' =>
-      let r := tx_step m o in
+      let r := tx_step cfg m o in
       res_eqb (snd r) out
       && forallb (fun x => oentry_eqb (find (fst x) (r_store (fst r))) (snd x)) obs
-      && replay (fst r) l'
+      && replay cfg (fst r) l'
   end.
 Definition check (k : case) : bool :=
   match create (k_ty k) 4 harness_mutable (k_initial k) with
-  | Some m => replay m (k_steps k)
+  | Some m => replay {| mintable := k_mintable k; burnable := k_burnable k |} m (k_steps k)
   | None => false
   end.
